@@ -5,6 +5,7 @@ import (
 	"encoding/json"
 	"fmt"
 	"reflect"
+	"strings"
 
 	"github.com/kstenerud/go-concise-encoding/cbe"
 	"github.com/kstenerud/go-concise-encoding/ce/events"
@@ -214,6 +215,27 @@ func c09Corpus() []c09Doc {
 	arr := []ev.E{ev.EList(), ev.EPInt(1), ev.EArr(events.ArrayTypeUint8, 20, bytes.Repeat([]byte{7}, 20)), ev.EPInt(2),
 		ev.EArr(events.ArrayTypeUint16, 17, bytes.Repeat([]byte{1, 2}, 17)), ev.EPInt(3), long, ev.EPInt(4), ev.EArr(events.ArrayTypeUint32, 3, bytes.Repeat([]byte{9, 0, 0, 0}, 3)), ev.EStr("end"), ev.EEnd()}
 	out = append(out, c09Doc{"list-arrays", doc(arr...), []interface{}{nil, []interface{}{}}})
+	// F6: payloads longer than the binary reader's initial buffer (127 bytes) and than two of its growth steps, as the
+	// top-level value and between list elements
+	seq := func(n int) []byte {
+		b := make([]byte, n)
+		for i := range b {
+			b[i] = byte(0x35*(i+1) + 7)
+		}
+		return b
+	}
+	longStr := strings.Repeat("0123456789abcdeé", 18)
+	out = append(out,
+		c09Doc{"long-payload", doc(ev.EArr(events.ArrayTypeFloat64, 20, seq(160))), []interface{}{nil, []float64{}}},
+		c09Doc{"long-payload", doc(ev.EArr(events.ArrayTypeUint8, 150, seq(150))), []interface{}{nil, []byte{}}},
+		c09Doc{"long-payload", doc(ev.EStr(longStr)), []interface{}{nil, ""}},
+		c09Doc{"long-payload", doc(ev.EList(), ev.EPInt(1), ev.EArr(events.ArrayTypeUint8, 150, seq(150)), ev.EPInt(2), ev.EArr(events.ArrayTypeUint16, 300, seq(600)), ev.EStr(longStr), ev.EPInt(3), ev.EEnd()), []interface{}{nil, []interface{}{}}},
+		c09Doc{"long-payload", doc(ev.EMap(), ev.EStr("a"), ev.EPInt(1), ev.EStr("b"), ev.EStr(longStr), ev.EStr("c"), ev.EArr(events.ArrayTypeUint32, 40, seq(160)), ev.EEnd()), []interface{}{nil, struct {
+			A int
+			B string
+			C []uint32
+		}{}}},
+	)
 	return out
 }
 
